@@ -1,1 +1,1319 @@
-//! C44: not implemented yet.
+//! C44 — CSPTP clients survive any server traffic and only use matching answers.
+//!
+//! Engine E-SEQ: the real `CsptpSource::run` future is stepped by a hand-rolled executor
+//! (no-op waker + poll loop). Socket, sleep and rng are scripted mocks, so the harness
+//! decides every environment answer: which datagram `recv` yields next, whether the
+//! response timeout fires first, whether `send_event` / `recv` / socket creation fail.
+//!
+//! A scenario is a list of requests; each request = send outcome + a list of received
+//! events, implicitly terminated by the response timeout (so "timeout at each position"
+//! = every prefix, which the length-bounded enumeration contains). The socket of a request
+//! is dropped when the request ends, exactly as in the daemon.
+//!
+//! Enumerated:
+//!  S1  one request, every event sequence of length <= 4 (thorough 5) over the 20-symbol alphabet
+//!  S2  two consecutive requests, every pair of sequences (<= 2 / <= 2 quick; <= 3 / <= 2 and
+//!      <= 2 / <= 3 thorough) — request 1's alphabet contains the *stale* answers to request 0 —
+//!      x {send ok, send error} for request 0
+//!  S3  value sweep on the three completing shapes [R1], [R2,FU], [FU,R2]:
+//!      send time x request correction x origin time x correction(s) over
+//!      {0, 1, 2^48-1 s, 999 999 999 ns} / {0, +-1, +-1 ns, +-1 s, +-2^47 ns, i64::MIN/MAX}
+//!  S4  sequence-id arithmetic: the alphabet at request 255/256/257 and after a full
+//!      wrap (65536 requests), socket creation failure at each request index
+//!
+//! Oracle (from the statement, on an independent byte-level reading of the datagrams):
+//!  * no panic (a caught panic = the daemon aborts),
+//!  * per request the controller sees nothing, or exactly one `set_usable(true)` + one
+//!    measurement pair, and only at a moment when the datagram just delivered completes a
+//!    response (+ follow-up for two-step) carrying the current request's domain and
+//!    sequence id (read back from the request the source actually sent), received with
+//!    a timestamp, before the timeout,
+//!  * the pair's values are those of that response/follow-up (wide-integer arithmetic),
+//!  * manager state only changes in a request that produced a measurement.
+//! Beyond the statement (class `C44:measurement-missing-or-late`, conformance only): a
+//! complete unambiguous answer does produce the measurement at the first possible moment.
+extern crate std;
+use core::cell::RefCell;
+use core::future::Future;
+use core::pin::Pin;
+use core::task::{Context, Poll, Waker};
+use core::time::Duration;
+use std::prelude::v1::*;
+use std::sync::{Arc, Mutex};
+use std::{format, println, vec};
+
+use ntp_proto::{ClockId, Measurement, NtpLeapIndicator, NtpTimestamp, ObservableSourceTimedata, PollInterval, SourceController};
+use statime_wire::Timestamp;
+
+use super::common::{self, Ctx};
+use crate::{ClientRecvResult, ClientSocket, CsptpConfig, CsptpManager, CsptpSource, CsptpSourceConfig, InternalState};
+
+// ---------------------------------------------------------------------------------
+// byte-level datagram builder / inspector (shared with C45)
+// ---------------------------------------------------------------------------------
+pub(super) mod wire {
+    extern crate std;
+    use std::prelude::v1::*;
+    use std::vec;
+
+    pub const TLV_REQ: u16 = 0xff00;
+    pub const TLV_RESP: u16 = 0xff01;
+    pub const TLV_STATUS: u16 = 0xf002;
+    pub const TLV_PAD: u16 = 0x8008;
+
+    /// A PTP datagram described field by field (IEEE 1588-2019 13.3 header layout).
+    #[derive(Clone, Debug, PartialEq, Eq, Hash)]
+    pub struct Pkt {
+        pub mtype: u8,
+        pub sdo: u16,
+        pub ver: u8, // octet 1: minorVersionPTP << 4 | versionPTP
+        pub domain: u8,
+        pub flag0: u8,
+        pub flag1: u8,
+        pub corr: i64,
+        pub seq: u16,
+        pub logint: u8,
+        pub body: Vec<u8>,
+        pub tlvs: Vec<(u16, Vec<u8>)>,
+        /// messageLength = real length + len_delta
+        pub len_delta: i32,
+    }
+
+    pub const F0_TWO_STEP: u8 = 0x02;
+    pub const F0_UNICAST: u8 = 0x04;
+    pub const F1_LEAP61: u8 = 0x01;
+    pub const F1_LEAP59: u8 = 0x02;
+
+    impl Pkt {
+        pub fn new(mtype: u8, domain: u8, seq: u16) -> Pkt {
+            Pkt { mtype, sdo: 0x300, ver: 0x12, domain, flag0: F0_UNICAST, flag1: 0, corr: 0, seq, logint: 0x7f, body: ts10(0, 0), tlvs: vec![], len_delta: 0 }
+        }
+        pub fn bytes(&self) -> Vec<u8> {
+            let mut b = vec![0u8; 34];
+            b[0] = (((self.sdo >> 8) as u8) << 4) | (self.mtype & 0x0f);
+            b[1] = self.ver;
+            b[4] = self.domain;
+            b[5] = (self.sdo & 0xff) as u8;
+            b[6] = self.flag0;
+            b[7] = self.flag1;
+            b[8..16].copy_from_slice(&self.corr.to_be_bytes());
+            b[30..32].copy_from_slice(&self.seq.to_be_bytes());
+            b[33] = self.logint;
+            b.extend_from_slice(&self.body);
+            for (t, v) in &self.tlvs {
+                b.extend_from_slice(&t.to_be_bytes());
+                b.extend_from_slice(&(v.len() as u16).to_be_bytes());
+                b.extend_from_slice(v);
+            }
+            let l = (b.len() as i32 + self.len_delta) as u16;
+            b[2..4].copy_from_slice(&l.to_be_bytes());
+            b
+        }
+    }
+
+    pub fn ts10(sec: u64, nanos: u32) -> Vec<u8> {
+        let mut v = sec.to_be_bytes()[2..8].to_vec();
+        v.extend_from_slice(&nanos.to_be_bytes());
+        v
+    }
+    pub fn read_ts(b: &[u8]) -> (u64, u32) {
+        let mut s = [0u8; 8];
+        s[2..8].copy_from_slice(&b[0..6]);
+        (u64::from_be_bytes(s), u32::from_be_bytes([b[6], b[7], b[8], b[9]]))
+    }
+    pub fn resp_tlv(sec: u64, nanos: u32, corr: i64) -> (u16, Vec<u8>) {
+        let mut v = ts10(sec, nanos);
+        v.extend_from_slice(&corr.to_be_bytes());
+        (TLV_RESP, v)
+    }
+    pub fn req_tlv(flags: u8) -> (u16, Vec<u8>) {
+        (TLV_REQ, vec![flags, 0, 0, 0])
+    }
+    pub fn status_tlv(p1: u8, class: u8, acc: u8, var: u16, p2: u8, steps: u16, utc: i16, gm: [u8; 8]) -> (u16, Vec<u8>) {
+        let mut v = vec![p1, class, acc];
+        v.extend_from_slice(&var.to_be_bytes());
+        v.push(p2);
+        v.extend_from_slice(&steps.to_be_bytes());
+        v.extend_from_slice(&utc.to_be_bytes());
+        v.extend_from_slice(&gm);
+        (TLV_STATUS, v)
+    }
+
+    /// What an independent reader sees in a datagram.
+    #[derive(Clone, Debug, PartialEq, Eq)]
+    pub struct Seen {
+        pub mtype: u8,
+        pub sdo: u16,
+        pub major: u8,
+        pub minor: u8,
+        pub len: usize,
+        pub domain: u8,
+        pub flag0: u8,
+        pub flag1: u8,
+        pub corr: i64,
+        pub seq: u16,
+        pub logint: u8,
+        pub body_ts: (u64, u32),
+        pub tlvs: Vec<(u16, Vec<u8>)>,
+    }
+
+    #[derive(Clone, Copy, Debug, PartialEq, Eq)]
+    pub enum Class {
+        /// not a CSPTP message by any reading: must be ignored
+        Invalid,
+        /// the statement / PTP leave it open (e.g. nanoseconds == 10^9, duplicate CSPTP TLVs,
+        /// a trailing empty TLV which the library wrongly rejects [C41]): either reading accepted
+        Grey,
+        Valid,
+    }
+    #[derive(Clone, Copy, Debug, PartialEq, Eq)]
+    pub enum Kind {
+        Request,
+        Response,
+        FollowUp,
+    }
+
+    /// Independent classification of a received datagram as a CSPTP message.
+    pub fn classify(d: &[u8]) -> (Class, Option<(Kind, Seen)>) {
+        if d.len() < 44 {
+            return (Class::Invalid, None);
+        }
+        let len = u16::from_be_bytes([d[2], d[3]]) as usize;
+        let sdo = (((d[0] >> 4) as u16) << 8) | d[5] as u16;
+        let mtype = d[0] & 0x0f;
+        let major = d[1] & 0x0f;
+        if major != 2 || sdo != 0x300 || (mtype != 0 && mtype != 8) || len < 44 || len > d.len() {
+            return (Class::Invalid, None);
+        }
+        let mut grey = false;
+        let body_ts = read_ts(&d[34..44]);
+        if body_ts.1 > 1_000_000_000 {
+            return (Class::Invalid, None);
+        }
+        if body_ts.1 == 1_000_000_000 {
+            grey = true;
+        }
+        let mut tlvs = Vec::new();
+        let mut o = 44;
+        while len - o >= 4 {
+            let t = u16::from_be_bytes([d[o], d[o + 1]]);
+            let l = u16::from_be_bytes([d[o + 2], d[o + 3]]) as usize;
+            if l % 2 == 1 || o + 4 + l > len {
+                return (Class::Invalid, None);
+            }
+            tlvs.push((t, d[o + 4..o + 4 + l].to_vec()));
+            o += 4 + l;
+        }
+        if o != len {
+            return (Class::Invalid, None);
+        }
+        if tlvs.last().is_some_and(|t| t.1.is_empty()) {
+            grey = true;
+        }
+        let seen = Seen {
+            mtype,
+            sdo,
+            major,
+            minor: d[1] >> 4,
+            len,
+            domain: d[4],
+            flag0: d[6],
+            flag1: d[7],
+            corr: i64::from_be_bytes(d[8..16].try_into().unwrap()),
+            seq: u16::from_be_bytes([d[30], d[31]]),
+            logint: d[33],
+            body_ts,
+            tlvs,
+        };
+        if mtype == 8 {
+            return (if grey { Class::Grey } else { Class::Valid }, Some((Kind::FollowUp, seen)));
+        }
+        let nreq = seen.tlvs.iter().filter(|t| t.0 == TLV_REQ).count();
+        let nresp = seen.tlvs.iter().filter(|t| t.0 == TLV_RESP).count();
+        if nreq + nresp == 0 {
+            return (Class::Invalid, None);
+        }
+        if nreq + nresp > 1 {
+            // the library rejects these; nothing in the statement says it must
+            if nreq > 0 && nresp > 0 {
+                // neither a request nor a response
+                return (Class::Invalid, None);
+            }
+            let kind = if nresp > 0 { Kind::Response } else { Kind::Request };
+            let usable = seen.tlvs.iter().filter(|t| t.0 == TLV_REQ).all(|t| !t.1.is_empty()) && seen.tlvs.iter().filter(|t| t.0 == TLV_RESP).all(|t| t.1.len() >= 18 && read_ts(&t.1).1 < 1_000_000_000);
+            return if usable { (Class::Grey, Some((kind, seen))) } else { (Class::Invalid, None) };
+        }
+        if nreq == 1 {
+            let v = &seen.tlvs.iter().find(|t| t.0 == TLV_REQ).unwrap().1;
+            if v.is_empty() {
+                return (Class::Invalid, None);
+            }
+            return (if grey { Class::Grey } else { Class::Valid }, Some((Kind::Request, seen)));
+        }
+        let v = &seen.tlvs.iter().find(|t| t.0 == TLV_RESP).unwrap().1;
+        if v.len() < 18 {
+            return (Class::Invalid, None);
+        }
+        let n = read_ts(v).1;
+        if n > 1_000_000_000 {
+            return (Class::Invalid, None);
+        }
+        if n == 1_000_000_000 || v.len() > 18 {
+            grey = true;
+        }
+        (if grey { Class::Grey } else { Class::Valid }, Some((Kind::Response, seen)))
+    }
+
+    pub fn resp_fields(s: &Seen) -> Option<((u64, u32), i64)> {
+        let v = &s.tlvs.iter().find(|t| t.0 == TLV_RESP)?.1;
+        if v.len() < 18 {
+            return None;
+        }
+        Some((read_ts(v), i64::from_be_bytes(v[10..18].try_into().unwrap())))
+    }
+}
+
+// ---------------------------------------------------------------------------------
+// executor (shared with C45)
+// ---------------------------------------------------------------------------------
+pub(super) fn block_on_steps<F: Future>(fut: F, max_polls: usize) -> Result<(F::Output, usize), String> {
+    let mut fut = core::pin::pin!(fut);
+    let mut cx = Context::from_waker(Waker::noop());
+    for i in 0..max_polls {
+        if let Poll::Ready(v) = fut.as_mut().poll(&mut cx) {
+            return Ok((v, i + 1));
+        }
+    }
+    Err(format!("future still pending after {max_polls} polls"))
+}
+
+/// Deterministic rng for the poll-interval jitter (splitmix64).
+pub(super) struct Rng(u64);
+impl rand::RngCore for Rng {
+    fn next_u32(&mut self) -> u32 {
+        (self.next_u64() >> 32) as u32
+    }
+    fn next_u64(&mut self) -> u64 {
+        self.0 = self.0.wrapping_add(0x9e3779b97f4a7c15);
+        let mut z = self.0;
+        z = (z ^ (z >> 30)).wrapping_mul(0xbf58476d1ce4e5b9);
+        z = (z ^ (z >> 27)).wrapping_mul(0x94d049bb133111eb);
+        z ^ (z >> 31)
+    }
+    fn fill_bytes(&mut self, dest: &mut [u8]) {
+        for b in dest {
+            *b = self.next_u64() as u8;
+        }
+    }
+    fn try_fill_bytes(&mut self, dest: &mut [u8]) -> Result<(), rand::Error> {
+        self.fill_bytes(dest);
+        Ok(())
+    }
+}
+
+// ---------------------------------------------------------------------------------
+// scenario, mocks
+// ---------------------------------------------------------------------------------
+type Ts = (u64, u32);
+
+#[derive(Clone, Debug, PartialEq, Eq, Hash)]
+enum Ev {
+    Dgram { bytes: Vec<u8>, ts: Option<Ts> },
+    RecvErr,
+}
+
+#[derive(Clone, Debug, PartialEq, Eq, Hash)]
+struct Req {
+    /// `None` = send_event fails
+    send: Option<Ts>,
+    events: Vec<Ev>,
+    /// this request repeated `repeat` times (trace compression for S4)
+    repeat: u32,
+}
+
+#[derive(Clone, Debug, PartialEq, Eq, Hash)]
+struct Scenario {
+    domain: u8,
+    /// the source is the manager's active source (status TLVs are applied)
+    active: bool,
+    /// socket creation fails at this request index (run returns Err)
+    sockerr: Option<usize>,
+    reqs: Vec<Req>,
+}
+
+impl Scenario {
+    fn nreq(&self) -> usize {
+        self.reqs.iter().map(|r| r.repeat as usize).sum()
+    }
+    fn req(&self, mut k: usize) -> &Req {
+        for r in &self.reqs {
+            if k < r.repeat as usize {
+                return r;
+            }
+            k -= r.repeat as usize;
+        }
+        unreachable!()
+    }
+}
+
+#[derive(Clone, Debug)]
+enum Out {
+    Usable { req: usize, pos: usize, v: bool },
+    Meas { req: usize, pos: usize, m: Measurement },
+}
+
+struct Env {
+    sc: Scenario,
+    nreq: usize,
+    created: usize,
+    pos: usize,
+    sent: Vec<(usize, Vec<u8>)>,
+    done: bool,
+    out: Vec<Out>,
+    sleeps: Vec<Duration>,
+    consumed: Vec<usize>,
+    state_at: Vec<String>,
+}
+
+const POLL: Duration = Duration::from_millis(1000);
+const RESP: Duration = Duration::from_millis(7);
+
+struct Sock {
+    env: Arc<Mutex<Env>>,
+    idx: usize,
+}
+
+impl ClientSocket for Sock {
+    type Error = &'static str;
+
+    fn recv(&mut self, buf: &mut [u8]) -> impl Future<Output = Result<ClientRecvResult, Self::Error>> {
+        let env = self.env.clone();
+        let idx = self.idx;
+        core::future::poll_fn(move |_cx| {
+            let mut e = env.lock().unwrap();
+            if e.created != idx + 1 {
+                return Poll::Pending;
+            }
+            let pos = e.pos;
+            let ev = e.sc.req(idx).events.get(pos).cloned();
+            match ev {
+                None => Poll::Pending,
+                Some(ev) => {
+                    e.pos += 1;
+                    match ev {
+                        Ev::RecvErr => Poll::Ready(Err("recv error")),
+                        Ev::Dgram { bytes, ts } => {
+                            let n = bytes.len().min(buf.len());
+                            buf[..n].copy_from_slice(&bytes[..n]);
+                            Poll::Ready(Ok(ClientRecvResult { bytes_read: n, timestamp: ts.map(|t| Timestamp::new(t.0, t.1).unwrap()) }))
+                        }
+                    }
+                }
+            }
+        })
+    }
+
+    fn send_event(&mut self, buf: &[u8]) -> impl Future<Output = Result<Timestamp, Self::Error>> {
+        let mut e = self.env.lock().unwrap();
+        let idx = self.idx;
+        e.sent.push((idx, buf.to_vec()));
+        let r = match e.sc.req(idx).send {
+            Some(t) => Ok(Timestamp::new(t.0, t.1).unwrap()),
+            None => Err("send error"),
+        };
+        core::future::ready(r)
+    }
+}
+
+impl Drop for Sock {
+    fn drop(&mut self) {
+        let mut e = self.env.lock().unwrap();
+        let p = e.pos;
+        e.consumed.push(p);
+    }
+}
+
+struct SleepFut {
+    env: Arc<Mutex<Env>>,
+    timeout_of: Option<usize>,
+}
+impl Future for SleepFut {
+    type Output = ();
+    fn poll(self: Pin<&mut Self>, _cx: &mut Context<'_>) -> Poll<()> {
+        let mut e = self.env.lock().unwrap();
+        match self.timeout_of {
+            Some(idx) => {
+                // the response timeout fires once every scripted event of its request has been delivered
+                if e.created != idx + 1 || e.pos >= e.sc.req(idx).events.len() {
+                    Poll::Ready(())
+                } else {
+                    Poll::Pending
+                }
+            }
+            None => {
+                // poll interval: elapses as long as another request (or a failing socket) is scripted
+                if e.created < e.nreq || e.sc.sockerr == Some(e.created) {
+                    Poll::Ready(())
+                } else {
+                    e.done = true;
+                    Poll::Pending
+                }
+            }
+        }
+    }
+}
+
+struct Ctl {
+    env: Arc<Mutex<Env>>,
+}
+impl SourceController for Ctl {
+    fn handle_measurement(&mut self, m: Measurement) {
+        let mut e = self.env.lock().unwrap();
+        let (req, pos) = (e.created.wrapping_sub(1), e.pos);
+        e.out.push(Out::Meas { req, pos, m });
+    }
+    fn set_usable(&mut self, v: bool) {
+        let mut e = self.env.lock().unwrap();
+        let (req, pos) = (e.created.wrapping_sub(1), e.pos);
+        e.out.push(Out::Usable { req, pos, v });
+    }
+    fn desired_poll_interval(&self) -> PollInterval {
+        PollInterval::default()
+    }
+    fn observe(&self) -> ObservableSourceTimedata {
+        unimplemented!("not used by CsptpSource")
+    }
+}
+
+struct Obs {
+    result: String,
+    out: Vec<Out>,
+    sent: Vec<(usize, Vec<u8>)>,
+    consumed: Vec<usize>,
+    sleeps: Vec<Duration>,
+    state_at: Vec<String>,
+    state_end: String,
+    state_end_val: crate::CsptpState,
+    polls: usize,
+    remote: ClockId,
+}
+
+/// Execute one scenario against the real `CsptpSource`. `Err` = panic message.
+fn run_scenario(sc: &Scenario) -> Result<Obs, String> {
+    let nreq = sc.nreq();
+    let env = Arc::new(Mutex::new(Env { sc: sc.clone(), nreq, created: 0, pos: 0, sent: vec![], done: false, out: vec![], sleeps: vec![], consumed: vec![], state_at: vec![], }));
+    let manager: CsptpManager<RefCell<InternalState>> = CsptpManager::new(CsptpConfig::default());
+    let remote = ClockId::new();
+    if sc.active {
+        crate::StateMutex::with_mut(&manager.state, |s| s.active_source = Some(remote));
+    }
+    let cfg = CsptpSourceConfig { poll_interval: POLL, response_interval: RESP, domain: sc.domain };
+    let max_polls = 4 * nreq + 16;
+    let r = common::catch(|| {
+        let mut source = CsptpSource::new(ClockId::SYSTEM, remote, cfg, &manager, Ctl { env: env.clone() });
+        let e1 = env.clone();
+        let shutdown = core::future::poll_fn(move |_| if e1.lock().unwrap().done { Poll::Ready(()) } else { Poll::Pending });
+        let e2 = env.clone();
+        let mgr = &manager;
+        let create_socket = move || {
+            let mut e = e2.lock().unwrap();
+            let st = format!("{:?}", mgr.observe());
+            e.state_at.push(st);
+            if e.sc.sockerr == Some(e.created) {
+                return Err("socket error");
+            }
+            let idx = e.created;
+            e.created += 1;
+            e.pos = 0;
+            Ok(Sock { env: e2.clone(), idx })
+        };
+        let e3 = env.clone();
+        let sleep = move |d: Duration| {
+            let mut e = e3.lock().unwrap();
+            e.sleeps.push(d);
+            let timeout_of = if d == RESP { Some(e.created.wrapping_sub(1)) } else { None };
+            SleepFut { env: e3.clone(), timeout_of }
+        };
+        let mut seed = 0x1234_5678u64;
+        let rng = move || {
+            seed = seed.wrapping_add(1);
+            Rng(seed)
+        };
+        block_on_steps(source.run(shutdown, create_socket, sleep, rng), max_polls)
+    });
+    let (result, polls) = match r {
+        Err(p) => return Err(p),
+        Ok(Err(stuck)) => (format!("STUCK: {stuck}"), max_polls),
+        Ok(Ok((Ok(()), n))) => ("ok".to_string(), n),
+        Ok(Ok((Err(e), n))) => (format!("err:{e}"), n),
+    };
+    let mut e = env.lock().unwrap();
+    let state_end_val = manager.observe();
+    Ok(Obs {
+        result,
+        out: std::mem::take(&mut e.out),
+        sent: std::mem::take(&mut e.sent),
+        consumed: std::mem::take(&mut e.consumed),
+        sleeps: std::mem::take(&mut e.sleeps),
+        state_at: std::mem::take(&mut e.state_at),
+        state_end: format!("{state_end_val:?}"),
+        state_end_val,
+        polls,
+        remote,
+    })
+}
+
+// ---------------------------------------------------------------------------------
+// reference model
+// ---------------------------------------------------------------------------------
+const NS: i128 = 1_000_000_000;
+
+/// ts + correction (scaled ns, 2^-16) for each admissible rounding; None = leaves [0, 2^48 s)
+fn corrected(ts: Ts, corr_scaled: i128) -> Vec<Option<Ts>> {
+    let base = ts.0 as i128 * NS + ts.1 as i128;
+    let floor = corr_scaled.div_euclid(65536);
+    let trunc = corr_scaled / 65536;
+    let near = (corr_scaled + 32768).div_euclid(65536);
+    let mut v: Vec<Option<Ts>> = Vec::new();
+    for c in [floor, trunc, near] {
+        let t = base + c;
+        let r = if t < 0 || t >= (1i128 << 48) * NS { None } else { Some(((t / NS) as u64, (t % NS) as u32)) };
+        if !v.contains(&r) {
+            v.push(r);
+        }
+    }
+    v
+}
+
+/// PTP (TAI, 1970) -> NTP era timestamp (UTC, 1900): 70 years incl. 17 leap days, TAI-UTC = 37 s
+fn ntp_of(t: Ts) -> NtpTimestamp {
+    let s = (t.0 as u128 + 2_208_988_800 - 37) % (1u128 << 32);
+    NtpTimestamp::from_seconds_nanos_since_ntp_era(s as u32, t.1)
+}
+
+#[derive(Clone, Debug)]
+struct Seenv {
+    class: wire::Class,
+    kind: wire::Kind,
+    s: wire::Seen,
+    rx: Option<Ts>,
+}
+
+fn matching(ev: &Ev, domain: u8, seq: u16) -> Option<Seenv> {
+    let Ev::Dgram { bytes, ts } = ev else { return None };
+    let view = &bytes[..bytes.len().min(512)];
+    let (class, ks) = wire::classify(view);
+    let (kind, s) = ks?;
+    if class == wire::Class::Invalid || s.domain != domain || s.seq != seq {
+        return None;
+    }
+    Some(Seenv { class, kind, s, rx: *ts })
+}
+
+/// Can the measurement pair (m1, m2) come from `resp` (+ `fu`) sent at `t1`?
+/// Ok(()) or a description of the first field that does not fit.
+fn values_fit(t1: Ts, resp: &Seenv, fu: Option<&Seenv>, m1: &Measurement, m2: &Measurement, remote: ClockId) -> Result<(), String> {
+    let (t2, c1) = wire::resp_fields(&resp.s).ok_or("no response TLV")?;
+    let t4 = resp.rx.ok_or("response without receive timestamp")?;
+    let (t3, csum): (Ts, Vec<i128>) = match fu {
+        Some(f) => {
+            let exact = resp.s.corr as i128 + f.s.corr as i128;
+            let sat = resp.s.corr.saturating_add(f.s.corr) as i128;
+            (f.s.body_ts, if exact == sat { vec![exact] } else { vec![exact, sat] })
+        }
+        None => (resp.s.body_ts, vec![resp.s.corr as i128]),
+    };
+    if m1.sender_id != ClockId::SYSTEM || m1.receiver_id != remote {
+        return Err(format!("first measurement goes {:?} -> {:?}, expected local -> remote", m1.sender_id, m1.receiver_id));
+    }
+    if m2.sender_id != remote || m2.receiver_id != ClockId::SYSTEM {
+        return Err(format!("second measurement goes {:?} -> {:?}, expected remote -> local", m2.sender_id, m2.receiver_id));
+    }
+    // malformed-but-tolerated nanosecond fields make the arithmetic undefined
+    if t2.1 >= 1_000_000_000 || t3.1 >= 1_000_000_000 {
+        return Ok(());
+    }
+    let fits = |got: NtpTimestamp, cands: &[Option<Ts>]| cands.iter().any(|c| c.is_none_or(|t| ntp_of(t) == got));
+    let c_t1 = corrected(t1, c1 as i128);
+    if !fits(m1.sender_ts, &c_t1) {
+        return Err(format!("request send time: got {:?}, expected send {t1:?} + correction {c1} -> {c_t1:?}", m1.sender_ts));
+    }
+    if m1.receiver_ts != ntp_of(t2) {
+        return Err(format!("request receive time: got {:?}, response TLV says {t2:?}", m1.receiver_ts));
+    }
+    let mut c_t3 = Vec::new();
+    for c in &csum {
+        c_t3.extend(corrected(t3, *c));
+    }
+    if !fits(m2.sender_ts, &c_t3) {
+        return Err(format!("response send time: got {:?}, expected {t3:?} + correction {csum:?} -> {c_t3:?}", m2.sender_ts));
+    }
+    if m2.receiver_ts != ntp_of(t4) {
+        return Err(format!("response receive time: got {:?}, socket said {t4:?}", m2.receiver_ts));
+    }
+    let l59 = resp.s.flag1 & wire::F1_LEAP59 != 0;
+    let l61 = resp.s.flag1 & wire::F1_LEAP61 != 0;
+    let leap_ok = |l: NtpLeapIndicator| match (l59, l61) {
+        (false, false) => l == NtpLeapIndicator::NoWarning,
+        (true, false) => l == NtpLeapIndicator::Leap59,
+        (false, true) => l == NtpLeapIndicator::Leap61,
+        (true, true) => l == NtpLeapIndicator::Leap59 || l == NtpLeapIndicator::Leap61,
+    };
+    if !leap_ok(m1.leap) || !leap_ok(m2.leap) {
+        return Err(format!("leap indication {:?}/{:?} with leap59={l59} leap61={l61}", m1.leap, m2.leap));
+    }
+    Ok(())
+}
+
+/// Does any rounding of `ts + corr` leave the representable range?
+fn range_problem(t1: Ts, resp: &Seenv, fu: Option<&Seenv>) -> bool {
+    let Some((_, c1)) = wire::resp_fields(&resp.s) else { return false };
+    if corrected(t1, c1 as i128).contains(&None) {
+        return true;
+    }
+    match fu {
+        Some(f) => corrected(f.s.body_ts, resp.s.corr as i128 + f.s.corr as i128).contains(&None) || corrected(f.s.body_ts, resp.s.corr.saturating_add(f.s.corr) as i128).contains(&None),
+        None => corrected(resp.s.body_ts, resp.s.corr as i128).contains(&None),
+    }
+}
+
+#[derive(Default)]
+struct Tally {
+    c: std::collections::BTreeMap<&'static str, u64>,
+    distinct: Vec<u64>,
+}
+impl Tally {
+    fn inc(&mut self, k: &'static str) {
+        *self.c.entry(k).or_insert(0) += 1;
+    }
+    fn add(&mut self, k: &'static str, n: u64) {
+        *self.c.entry(k).or_insert(0) += n;
+    }
+    fn flush(&mut self, ctx: &Ctx) {
+        for (k, v) in std::mem::take(&mut self.c) {
+            ctx.add(k, v);
+        }
+        ctx.distinct_many(std::mem::take(&mut self.distinct));
+    }
+}
+
+/// Run + judge one scenario. Returns a deterministic one-line observation.
+fn judge(ctx: &Ctx, tl: &mut Tally, sc: &Scenario) -> String {
+    let trace = || fmt_scenario(sc);
+    tl.inc("evaluations");
+    tl.inc("scenarios");
+    let obs = match run_scenario(sc) {
+        Ok(o) => o,
+        Err(p) => {
+            let class = if p.contains("Calculated nanoseconds should be between") { "C44:add-correction-panic" } else { "C44:panic" };
+            ctx.violation(class, format!("CsptpSource::run panicked (the daemon aborts): {p}"), trace());
+            tl.inc("panics");
+            return format!("PANIC {p}");
+        }
+    };
+    let nreq = sc.nreq();
+    tl.add("transitions", obs.consumed.iter().map(|c| *c as u64).sum::<u64>() + obs.sent.len() as u64);
+    tl.add("states", obs.sent.len() as u64);
+    let mut line = format!("{} polls={}", obs.result, obs.polls);
+    if obs.result.starts_with("STUCK") {
+        ctx.violation("C44:harness-stuck", format!("run neither finished nor consumed the script: {}", obs.result), trace());
+        return line;
+    }
+    match sc.sockerr {
+        Some(k) if k <= nreq => {
+            if obs.result != "err:socket error" {
+                ctx.violation("C44:socket-error-not-propagated", format!("socket creation failed at request {k} but run returned {}", obs.result), trace());
+            }
+        }
+        _ => {
+            if obs.result != "ok" {
+                ctx.violation("C44:run-result", format!("run returned {} without a socket error", obs.result), trace());
+            }
+        }
+    }
+    let last = sc.sockerr.map_or(nreq, |k| k.min(nreq));
+    if obs.sent.len() != last {
+        ctx.violation("C44:request-count", format!("{} requests sent, {} scripted", obs.sent.len(), last), trace());
+    }
+    // sleeps asked for: ZERO once, then per request one poll interval in [0.9, 1.1] x poll and (if sent) the response interval
+    for d in &obs.sleeps {
+        if !(*d == Duration::ZERO || *d == RESP || (*d >= POLL * 9 / 10 && *d <= POLL * 11 / 10)) {
+            ctx.violation("C44:sleep-duration", format!("asked to sleep {d:?} (poll {POLL:?}, response {RESP:?})"), trace());
+        }
+    }
+    for k in 0..last {
+        let rq = sc.req(k);
+        // what the source actually sent: must be a CSPTP request; its ids define "current"
+        let Some((_, sent)) = obs.sent.get(k).filter(|(i, _)| *i == k) else {
+            ctx.violation("C44:request-count", format!("no request datagram recorded for request {k}"), trace());
+            continue;
+        };
+        let (cl, ks) = wire::classify(sent);
+        let cur = match ks {
+            Some((wire::Kind::Request, s)) if cl == wire::Class::Valid => s,
+            _ => {
+                ctx.violation("C44:request-malformed", format!("request {k} is not a well-formed CSPTP request: {}", common::hex(sent)), trace());
+                continue;
+            }
+        };
+        if cur.domain != sc.domain || cur.seq != (k % 65536) as u16 {
+            ctx.violation("C44:request-ids", format!("request {k} carries domain {} sequence {} (configured domain {}, expected sequence {})", cur.domain, cur.seq, sc.domain, k % 65536), trace());
+        }
+        let outs: Vec<&Out> = obs.out.iter().filter(|o| matches!(o, Out::Usable { req, .. } | Out::Meas { req, .. } if *req == k)).collect();
+        let consumed = obs.consumed.get(k).copied().unwrap_or(0);
+        // --- model ---
+        let delivered: Vec<Option<Seenv>> = if rq.send.is_some() { rq.events.iter().map(|e| matching(e, cur.domain, cur.seq)).collect() } else { vec![] };
+        // first position (1-based count of delivered events) at which a complete answer exists,
+        // `must`: using Valid datagrams only
+        let complete_at = |must: bool, upto: usize| -> Option<usize> {
+            let ok = |s: &Seenv| !must || s.class == wire::Class::Valid;
+            let mut have_r2 = false;
+            let mut have_fu = false;
+            for (i, d) in delivered.iter().enumerate().take(upto) {
+                let Some(s) = d else { continue };
+                if !ok(s) {
+                    continue;
+                }
+                match s.kind {
+                    wire::Kind::Response if s.rx.is_some() => {
+                        if s.s.flag0 & wire::F0_TWO_STEP == 0 || have_fu {
+                            return Some(i + 1);
+                        }
+                        have_r2 = true;
+                    }
+                    wire::Kind::FollowUp => {
+                        if have_r2 {
+                            return Some(i + 1);
+                        }
+                        have_fu = true;
+                    }
+                    _ => {}
+                }
+            }
+            None
+        };
+        let state_changed = obs.state_at.get(k + 1).or(Some(&obs.state_end)) != obs.state_at.get(k);
+        match outs.len() {
+            0 => {
+                tl.inc("requests_without_measurement");
+                if state_changed {
+                    ctx.violation("C44:state-update-without-measurement", format!("manager state changed during request {k} although no measurement was produced"), trace());
+                }
+                if let Some(p) = complete_at(true, delivered.len()) {
+                    // tolerated when the completing data cannot be represented
+                    let rp = candidate_pairs(&delivered, p).iter().any(|(r, f)| range_problem(rq.send.unwrap(), r, f.as_ref()));
+                    if rp {
+                        tl.inc("unrepresentable_answers_dropped");
+                    } else {
+                        ctx.violation("C44:measurement-missing-or-late", format!("request {k}: a complete matching answer was delivered by event {p} but no measurement was produced"), trace());
+                    }
+                }
+                line.push_str(&format!(" r{k}:none@{consumed}"));
+            }
+            3 => {
+                let (Out::Usable { v: true, pos: p0, .. }, Out::Meas { m: m1, pos: p1, .. }, Out::Meas { m: m2, pos: p2, .. }) = (outs[0], outs[1], outs[2]) else {
+                    ctx.violation("C44:controller-call-shape", format!("request {k}: controller saw {outs:?}, expected set_usable(true) + 2 measurements"), trace());
+                    continue;
+                };
+                if p0 != p1 || p1 != p2 {
+                    ctx.violation("C44:controller-call-shape", format!("request {k}: the pair was delivered across different socket positions {p0},{p1},{p2}"), trace());
+                }
+                let pos = *p1;
+                tl.inc("requests_with_measurement");
+                // the datagram just delivered must complete a matching answer
+                let pairs = if pos >= 1 && pos <= delivered.len() { candidate_pairs(&delivered, pos) } else { vec![] };
+                if rq.send.is_none() || pairs.is_empty() {
+                    ctx.violation(
+                        "C44:unmatched-measurement",
+                        format!("request {k} (domain {} sequence {}): measurement produced after {pos} received events although no response (+ follow-up) with the current ids and a receive timestamp was complete at that point", cur.domain, cur.seq),
+                        trace(),
+                    );
+                } else {
+                    let t1 = rq.send.unwrap();
+                    let fits: Vec<Result<(), String>> = pairs.iter().map(|(r, f)| values_fit(t1, r, f.as_ref(), m1, m2, obs.remote)).collect();
+                    if !fits.iter().any(|f| f.is_ok()) {
+                        ctx.violation("C44:measurement-values", format!("request {k}: measurement does not carry the values of the matching answer: {}", fits[0].clone().unwrap_err()), trace());
+                    }
+                    match complete_at(true, delivered.len()) {
+                        Some(p) if p < pos => ctx.violation("C44:measurement-missing-or-late", format!("request {k}: answer complete at event {p}, measurement only at {pos}"), trace()),
+                        _ => {}
+                    }
+                    if state_changed {
+                        tl.inc("state_updates");
+                        let any_status = pairs.iter().any(|(r, _)| r.s.tlvs.iter().any(|t| t.0 == wire::TLV_STATUS && t.1.len() >= 18));
+                        if !sc.active || !any_status {
+                            ctx.violation("C44:state-update-unjustified", format!("request {k}: manager state changed (active={}, status TLV in the used response: {any_status})", sc.active), trace());
+                        }
+                    }
+                    if pairs.iter().any(|(r, f)| r.class == wire::Class::Grey || f.as_ref().is_some_and(|f| f.class == wire::Class::Grey)) {
+                        tl.inc("measurements_from_grey_datagrams");
+                    }
+                }
+                line.push_str(&format!(" r{k}:meas@{pos}"));
+            }
+            n => {
+                let meas = outs.iter().filter(|o| matches!(o, Out::Meas { .. })).count();
+                let class = if meas > 2 { "C44:duplicate-measurement" } else { "C44:controller-call-shape" };
+                ctx.violation(class, format!("request {k}: controller saw {n} calls ({meas} measurements): more than one measurement pair per request"), trace());
+                line.push_str(&format!(" r{k}:calls{n}"));
+            }
+        }
+        if obs.consumed.get(k).is_some_and(|c| *c > rq.events.len()) {
+            ctx.violation("C44:harness-accounting", "consumed more events than scripted", trace());
+        }
+    }
+    // anything attributed to a request index that never existed
+    if obs.out.iter().any(|o| matches!(o, Out::Usable { req, .. } | Out::Meas { req, .. } if *req >= last)) {
+        ctx.violation("C44:unmatched-measurement", "controller called outside of any request", trace());
+    }
+    if obs.out.iter().any(|o| matches!(o, Out::Usable { v: false, .. })) {
+        tl.inc("set_usable_false_calls");
+    }
+    tl.distinct.push(common::hash_of(&(sc, &line)));
+    line
+}
+
+/// All (response, follow-up?) combinations that the datagram delivered last (index pos-1)
+/// completes, among the matching datagrams delivered so far.
+fn candidate_pairs(delivered: &[Option<Seenv>], pos: usize) -> Vec<(Seenv, Option<Seenv>)> {
+    let mut v = Vec::new();
+    let Some(Some(last)) = delivered.get(pos - 1) else { return v };
+    let earlier: Vec<&Seenv> = delivered[..pos - 1].iter().flatten().collect();
+    match last.kind {
+        wire::Kind::Response if last.rx.is_some() => {
+            if last.s.flag0 & wire::F0_TWO_STEP == 0 {
+                v.push((last.clone(), None));
+            } else {
+                for f in earlier.iter().filter(|s| s.kind == wire::Kind::FollowUp) {
+                    v.push((last.clone(), Some((*f).clone())));
+                }
+            }
+        }
+        wire::Kind::FollowUp => {
+            for r in earlier.iter().filter(|s| s.kind == wire::Kind::Response && s.rx.is_some() && s.s.flag0 & wire::F0_TWO_STEP != 0) {
+                v.push(((*r).clone(), Some(last.clone())));
+            }
+        }
+        _ => {}
+    }
+    v
+}
+
+// ---------------------------------------------------------------------------------
+// alphabet
+// ---------------------------------------------------------------------------------
+#[derive(Clone, Copy, Debug)]
+struct Vals {
+    t2: Ts,
+    c1: i64,
+    t3: Ts,
+    c: i64,
+    cfu: i64,
+    t4: Ts,
+}
+const DEFAULT_VALS: Vals = Vals { t2: (1000, 5), c1: 3 << 16, t3: (1000, 700), c: 0x8000, cfu: 0x1_8000, t4: (1001, 9) };
+const ALT_VALS: Vals = Vals { t2: (2000, 15), c1: 7 << 16, t3: (2000, 1700), c: -0x8000, cfu: 5 << 16, t4: (2001, 19) };
+
+const NSYM: usize = 20;
+const SYM_NAMES: [&str; NSYM] = [
+    "R1", "R2", "FU", "R1stale", "R2stale", "FUstale", "R1dom", "FUdom", "REQ", "ANN", "GARBAGE", "R1nots", "RECVERR", "R2alt", "FUalt", "R1status", "R1sdo", "R1trunc", "R2nots", "R1swapseq",
+];
+
+fn response(d: u8, s: u16, two_step: bool, v: &Vals) -> wire::Pkt {
+    let mut p = wire::Pkt::new(0, d, s);
+    if two_step {
+        p.flag0 |= wire::F0_TWO_STEP;
+        p.body = wire::ts10(0, 0);
+    } else {
+        p.body = wire::ts10(v.t3.0, v.t3.1);
+    }
+    p.corr = v.c;
+    p.tlvs = vec![wire::resp_tlv(v.t2.0, v.t2.1, v.c1)];
+    p
+}
+fn follow_up(d: u8, s: u16, v: &Vals) -> wire::Pkt {
+    let mut p = wire::Pkt::new(8, d, s);
+    p.flag0 |= wire::F0_TWO_STEP;
+    p.body = wire::ts10(v.t3.0, v.t3.1);
+    p.corr = v.cfu;
+    p
+}
+
+fn sym_event(sym: usize, d: u8, s: u16) -> Ev {
+    let v = &DEFAULT_VALS;
+    let dg = |p: wire::Pkt, ts: Option<Ts>| Ev::Dgram { bytes: p.bytes(), ts };
+    match sym {
+        0 => dg(response(d, s, false, v), Some(v.t4)),
+        1 => dg(response(d, s, true, v), Some(v.t4)),
+        2 => dg(follow_up(d, s, v), None),
+        3 => dg(response(d, s.wrapping_sub(1), false, v), Some(v.t4)),
+        4 => dg(response(d, s.wrapping_sub(1), true, v), Some(v.t4)),
+        5 => dg(follow_up(d, s.wrapping_sub(1), v), None),
+        6 => dg(response(d ^ 1, s, false, v), Some(v.t4)),
+        7 => dg(follow_up(d.wrapping_add(1), s, v), None),
+        8 => {
+            let mut p = wire::Pkt::new(0, d, s);
+            p.tlvs = vec![wire::req_tlv(1)];
+            dg(p, Some(v.t4))
+        }
+        9 => {
+            let mut p = wire::Pkt::new(0xb, d, s);
+            p.body = vec![0u8; 30];
+            dg(p, Some(v.t4))
+        }
+        10 => Ev::Dgram { bytes: vec![0xff; 20], ts: Some(v.t4) },
+        11 => dg(response(d, s, false, v), None),
+        12 => Ev::RecvErr,
+        13 => dg(response(d, s, true, &ALT_VALS), Some(ALT_VALS.t4)),
+        14 => dg(follow_up(d, s, &ALT_VALS), None),
+        15 => {
+            let mut p = response(d, s, false, v);
+            p.flag1 = wire::F1_LEAP59 | 0x08 | 0x10;
+            p.tlvs.push(wire::status_tlv(10, 6, 0x21, 0x1234, 20, 0xffff, 37, [9; 8]));
+            dg(p, Some(v.t4))
+        }
+        16 => {
+            let mut p = response(d, s, false, v);
+            p.sdo = 0;
+            dg(p, Some(v.t4))
+        }
+        17 => {
+            let mut b = response(d, s, false, v).bytes();
+            b.pop();
+            Ev::Dgram { bytes: b, ts: Some(v.t4) }
+        }
+        18 => dg(response(d, s, true, v), None),
+        _ => dg(response(d, s.swap_bytes() ^ if s == s.swap_bytes() { 0x0100 } else { 0 }, false, v), Some(v.t4)),
+    }
+}
+
+fn seq_events(word: &[usize], d: u8, s: u16) -> Vec<Ev> {
+    word.iter().map(|x| sym_event(*x, d, s)).collect()
+}
+
+/// index -> word over `k` symbols of length <= maxlen (shortest first)
+fn word_of_index(mut i: u64, k: usize, maxlen: usize) -> Vec<usize> {
+    for len in 0..=maxlen {
+        let n = common::pow(k, len);
+        if i < n {
+            return common::word_of(i, k, len);
+        }
+        i -= n;
+    }
+    unreachable!()
+}
+fn words_upto(k: usize, maxlen: usize) -> u64 {
+    (0..=maxlen).map(|l| common::pow(k, l)).sum()
+}
+
+// ---------------------------------------------------------------------------------
+// trace format
+// ---------------------------------------------------------------------------------
+fn fmt_scenario(sc: &Scenario) -> String {
+    let mut s = format!("dom={};act={};sockerr={}", sc.domain, sc.active as u8, sc.sockerr.map_or("-".to_string(), |k| k.to_string()));
+    for r in &sc.reqs {
+        s.push('/');
+        match r.send {
+            Some(t) => s.push_str(&format!("s{}.{}", t.0, t.1)),
+            None => s.push_str("sx"),
+        }
+        if r.repeat != 1 {
+            s.push_str(&format!("*{}", r.repeat));
+        }
+        s.push(':');
+        let evs: Vec<String> = r
+            .events
+            .iter()
+            .map(|e| match e {
+                Ev::RecvErr => "e".to_string(),
+                Ev::Dgram { bytes, ts } => format!("d{}@{}", common::hex(bytes), ts.map_or("-".to_string(), |t| format!("{}.{}", t.0, t.1))),
+            })
+            .collect();
+        s.push_str(&evs.join(","));
+    }
+    s
+}
+
+fn parse_ts(s: &str) -> Option<Ts> {
+    let (a, b) = s.split_once('.')?;
+    Some((a.parse().ok()?, b.parse().ok()?))
+}
+
+fn parse_scenario(t: &str) -> Option<Scenario> {
+    let mut parts = t.split('/');
+    let head = parts.next()?;
+    let mut sc = Scenario { domain: 128, active: false, sockerr: None, reqs: vec![] };
+    for kv in head.split(';') {
+        let (k, v) = kv.split_once('=')?;
+        match k {
+            "dom" => sc.domain = v.parse().ok()?,
+            "act" => sc.active = v == "1",
+            "sockerr" => sc.sockerr = v.parse().ok(),
+            _ => return None,
+        }
+    }
+    for p in parts {
+        let (send, evs) = p.split_once(':')?;
+        let (send, repeat) = match send.split_once('*') {
+            Some((a, n)) => (a, n.parse().ok()?),
+            None => (send, 1),
+        };
+        let send = if send == "sx" { None } else { Some(parse_ts(send.strip_prefix('s')?)?) };
+        let mut events = Vec::new();
+        for e in evs.split(',').filter(|e| !e.is_empty()) {
+            if e == "e" {
+                events.push(Ev::RecvErr);
+            } else {
+                let (h, ts) = e.strip_prefix('d')?.split_once('@')?;
+                events.push(Ev::Dgram { bytes: common::unhex(h)?, ts: if ts == "-" { None } else { Some(parse_ts(ts)?) } });
+            }
+        }
+        sc.reqs.push(Req { send, events, repeat });
+    }
+    Some(sc)
+}
+
+fn replay(ctx: &Ctx, trace: &str) -> String {
+    match parse_scenario(trace) {
+        Some(sc) => judge(ctx, &mut Tally::default(), &sc),
+        None => "unparsable trace".to_string(),
+    }
+}
+
+// ---------------------------------------------------------------------------------
+// check
+// ---------------------------------------------------------------------------------
+const T1_DEFAULT: Ts = (999, 999_999_990);
+
+#[test]
+fn check() {
+    let ctx = Ctx::new("C44");
+    if let Some(t) = common::replay_trace() {
+        let a = replay(&ctx, &t);
+        let b = replay(&ctx, &t);
+        common::report_replay("C44", &a, &b, ctx.violation_count() > 0);
+        return;
+    }
+    let quick = ctx.quick();
+    ctx.rule(
+        "S1: one request x every received-event sequence of length <=4 (thorough <=5) over 20 symbols {one-step response, two-step response, follow-up, \
+         the three with the previous sequence id, response/follow-up with another domain, request-TLV sync, announce, garbage, response \
+         without receive timestamp (1- and 2-step), recv error, alternative-valued two-step response / follow-up, response with status TLV, \
+         wrong sdoId, truncated, byte-swapped sequence id}, each implicitly ended by the response timeout (= timeout at every position); \
+         S2: two consecutive requests x every pair of sequences (<=2/<=2 quick; <=3/<=2 and <=2/<=3 thorough) x request 0 sent / send error; \
+         S3: the completing shapes [R1], [R2,FU], [FU,R2] x send time x request correction x origin time x correction(s) over the \
+         boundary sets; S4: alphabet at sequence ids 255..257, after a 65536 wrap, socket failure at each index. \
+         Non-trivial & distinct = distinct (scenario, per-request outcome) pair.",
+    );
+    ctx.assume("the mock delivers datagrams in script order; the response timeout fires exactly when the scripted events of the request are used up (every prefix is enumerated, so every timeout position is covered)");
+    ctx.assume("ntp-proto's NtpTimestamp::from_seconds_nanos_since_ntp_era and PartialEq are trusted for comparing measurement timestamps");
+    ctx.assume("values: correction is applied as floor, truncation or round-to-nearest of the 2^-16 ns field (any accepted); sum of two corrections exact or saturating (either accepted)");
+
+    // ---- S1 ----
+    let maxlen = if quick { 4 } else { 5 };
+    let n1 = words_upto(NSYM, maxlen);
+    ctx.set("s1_sequences", n1);
+    common::par_for(n1, 256, |i| {
+        let mut tl = Tally::default();
+        let w = word_of_index(i, NSYM, maxlen);
+        for active in [false, true] {
+            // status TLVs only matter when active; skip the duplicate run otherwise
+            if active && !w.contains(&15) {
+                continue;
+            }
+            let sc = Scenario { domain: 128, active, sockerr: None, reqs: vec![Req { send: Some(T1_DEFAULT), events: seq_events(&w, 128, 0), repeat: 1 }] };
+            let line = judge(&ctx, &mut tl, &sc);
+            if i % 20_011 == 3 {
+                ctx.sample(format!("S1 [{}] -> {line}", w.iter().map(|x| SYM_NAMES[*x]).collect::<Vec<_>>().join(",")));
+            }
+        }
+        tl.flush(&ctx);
+    });
+
+    // ---- S2 ----
+    let shapes: &[(usize, usize)] = if quick { &[(2, 2)] } else { &[(3, 2), (2, 3)] };
+    for &(l0, l1) in shapes {
+    let (w0, w1) = (words_upto(NSYM, l0), words_upto(NSYM, l1));
+    ctx.add("s2_pairs", w0 * w1 * 2);
+    common::par_for(w0 * w1, 256, |i| {
+        let mut tl = Tally::default();
+        let a = word_of_index(i / w1, NSYM, l0);
+        let b = word_of_index(i % w1, NSYM, l1);
+        for send0 in [Some(T1_DEFAULT), None] {
+            let sc = Scenario {
+                domain: 5,
+                active: true,
+                sockerr: None,
+                reqs: vec![Req { send: send0, events: seq_events(&a, 5, 0), repeat: 1 }, Req { send: Some(T1_DEFAULT), events: seq_events(&b, 5, 1), repeat: 1 }],
+            };
+            let line = judge(&ctx, &mut tl, &sc);
+            if i % 30_011 == 17 && send0.is_some() {
+                ctx.sample(format!(
+                    "S2 [{}] then [{}] -> {line}",
+                    a.iter().map(|x| SYM_NAMES[*x]).collect::<Vec<_>>().join(","),
+                    b.iter().map(|x| SYM_NAMES[*x]).collect::<Vec<_>>().join(",")
+                ));
+            }
+        }
+        tl.flush(&ctx);
+    });
+    }
+
+    // ---- S3: value sweep ----
+    let secs: [Ts; 6] = [(0, 0), (0, 1), (1, 0), ((1 << 48) - 1, 0), ((1 << 48) - 1, 999_999_999), (1_700_000_000, 999_999_999)];
+    let one_s: i64 = 1_000_000_000 << 16;
+    let corrs: [i64; 13] = [0, 1, -1, 1 << 16, -(1 << 16), 0xffff, one_s, -one_s, i64::MAX, i64::MIN, i64::MIN + 1, (1 << 62), -(1 << 62)];
+    let corrs_small: [i64; 7] = [0, -1, 1 << 16, -(1 << 16), -one_s, i64::MAX, i64::MIN];
+    let t1s: &[Ts] = &secs;
+    // shape R1: t1 x c1 x t3 x c
+    let n_r1 = (t1s.len() * corrs.len() * secs.len() * corrs.len()) as u64;
+    ctx.set("s3_one_step_value_cases", n_r1);
+    common::par_for(n_r1, 64, |i| {
+        let mut tl = Tally::default();
+        let mut x = i as usize;
+        let c = corrs[x % corrs.len()];
+        x /= corrs.len();
+        let t3 = secs[x % secs.len()];
+        x /= secs.len();
+        let c1 = corrs[x % corrs.len()];
+        x /= corrs.len();
+        let t1 = t1s[x];
+        let v = Vals { t2: (77, 123_456_789), c1, t3, c, cfu: 0, t4: (78, 1) };
+        let sc = Scenario { domain: 128, active: false, sockerr: None, reqs: vec![Req { send: Some(t1), events: vec![Ev::Dgram { bytes: response(128, 0, false, &v).bytes(), ts: Some(v.t4) }], repeat: 1 }] };
+        judge(&ctx, &mut tl, &sc);
+        tl.flush(&ctx);
+    });
+    // shapes [R2,FU] and [FU,R2]: t3 x c x cfu (x t1 x c1 reduced)
+    let n_r2 = (2 * secs.len() * corrs.len() * corrs.len() * corrs_small.len()) as u64;
+    ctx.set("s3_two_step_value_cases", n_r2);
+    common::par_for(n_r2, 64, |i| {
+        let mut tl = Tally::default();
+        let mut x = i as usize;
+        let order = x % 2;
+        x /= 2;
+        let cfu = corrs[x % corrs.len()];
+        x /= corrs.len();
+        let c = corrs[x % corrs.len()];
+        x /= corrs.len();
+        let t3 = secs[x % secs.len()];
+        x /= secs.len();
+        let c1 = corrs_small[x];
+        let v = Vals { t2: ((1 << 48) - 1, 999_999_999), c1, t3, c, cfu, t4: (0, 0) };
+        let r2 = Ev::Dgram { bytes: response(128, 0, true, &v).bytes(), ts: Some(v.t4) };
+        let fu = Ev::Dgram { bytes: follow_up(128, 0, &v).bytes(), ts: None };
+        let events = if order == 0 { vec![r2, fu] } else { vec![fu, r2] };
+        let sc = Scenario { domain: 128, active: false, sockerr: None, reqs: vec![Req { send: Some((5, 5)), events, repeat: 1 }] };
+        judge(&ctx, &mut tl, &sc);
+        tl.flush(&ctx);
+    });
+    // malformed-but-parsed nanosecond fields (10^9) and grey shapes
+    {
+        let mut tl = Tally::default();
+        for (t2n, t3n) in [(1_000_000_000u32, 0u32), (0, 1_000_000_000), (1_000_000_000, 1_000_000_000), (1_000_000_001, 0), (0, 1_000_000_001)] {
+            for c in [0i64, i64::MAX, i64::MIN, -1] {
+                let v = Vals { t2: (u32::MAX as u64, t2n), c1: c, t3: (u32::MAX as u64 - 2_208_988_800 + 37, t3n), c, cfu: c, t4: (1, 1) };
+                for two in [false, true] {
+                    let mut events = vec![Ev::Dgram { bytes: response(128, 0, two, &v).bytes(), ts: Some(v.t4) }];
+                    if two {
+                        events.push(Ev::Dgram { bytes: follow_up(128, 0, &v).bytes(), ts: None });
+                    }
+                    judge(&ctx, &mut tl, &Scenario { domain: 128, active: true, sockerr: None, reqs: vec![Req { send: Some((0, 0)), events, repeat: 1 }] });
+                }
+            }
+        }
+        // grey / odd shapes: trailing empty TLV, padded datagram, two response TLVs, request+response, oversize (> 512 bytes)
+        let base = response(128, 0, false, &DEFAULT_VALS);
+        let mut shapes: Vec<wire::Pkt> = Vec::new();
+        let mut p = base.clone();
+        p.tlvs.push((wire::TLV_PAD, vec![]));
+        shapes.push(p);
+        let mut p = base.clone();
+        p.tlvs.insert(0, (wire::TLV_PAD, vec![]));
+        shapes.push(p);
+        let mut p = base.clone();
+        p.tlvs.push(wire::resp_tlv(1, 1, 1));
+        shapes.push(p);
+        let mut p = base.clone();
+        p.tlvs.push(wire::req_tlv(1));
+        shapes.push(p);
+        let mut p = base.clone();
+        p.tlvs.push((wire::TLV_PAD, vec![0; 600]));
+        shapes.push(p);
+        let mut p = base.clone();
+        p.len_delta = -2;
+        shapes.push(p);
+        let mut p = base.clone();
+        p.tlvs[0].1.extend_from_slice(&[0, 0]);
+        shapes.push(p);
+        let mut p = base.clone();
+        p.tlvs[0].1.truncate(16);
+        shapes.push(p);
+        let mut p = base.clone();
+        p.ver = 0x13;
+        shapes.push(p);
+        let mut p = base.clone();
+        p.ver = 0x02;
+        shapes.push(p);
+        let mut p = base.clone();
+        p.flag0 = 0;
+        p.flag1 = wire::F1_LEAP59 | wire::F1_LEAP61;
+        shapes.push(p);
+        for p in &shapes {
+            let mut bytes = p.bytes();
+            for pad in [0usize, 3] {
+                bytes.extend(std::iter::repeat(0).take(pad));
+                judge(&ctx, &mut tl, &Scenario { domain: 128, active: true, sockerr: None, reqs: vec![Req { send: Some(T1_DEFAULT), events: vec![Ev::Dgram { bytes: bytes.clone(), ts: Some((3, 3)) }], repeat: 1 }] });
+            }
+        }
+        tl.flush(&ctx);
+    }
+
+    // ---- S4: sequence ids, wrap, socket failures ----
+    {
+        let l4 = 2;
+        let w4 = words_upto(NSYM, l4);
+        let skips: &[u32] = &[255, 256, 257];
+        ctx.set("s4_cases", w4 * skips.len() as u64 + 70_000);
+        common::par_for(w4 * skips.len() as u64, 16, |i| {
+            let mut tl = Tally::default();
+            let skip = skips[(i / w4) as usize];
+            let w = word_of_index(i % w4, NSYM, l4);
+            let sc = Scenario {
+                domain: 255,
+                active: false,
+                sockerr: None,
+                reqs: vec![Req { send: Some(T1_DEFAULT), events: vec![], repeat: skip }, Req { send: Some(T1_DEFAULT), events: seq_events(&w, 255, skip as u16), repeat: 1 }],
+            };
+            judge(&ctx, &mut tl, &sc);
+            tl.flush(&ctx);
+        });
+        let mut tl = Tally::default();
+        // full wrap of the 16-bit sequence id (send errors are the cheapest way round), then the completing shapes
+        for w in [vec![0usize], vec![1, 2], vec![2, 1], vec![3], vec![19]] {
+            let sc = Scenario {
+                domain: 0,
+                active: false,
+                sockerr: None,
+                reqs: vec![Req { send: None, events: vec![], repeat: 65_535 }, Req { send: Some(T1_DEFAULT), events: seq_events(&w, 0, 65_535), repeat: 1 }, Req { send: Some(T1_DEFAULT), events: seq_events(&w, 0, 0), repeat: 1 }],
+            };
+            judge(&ctx, &mut tl, &sc);
+        }
+        // socket creation failure at request 0, 1, 2
+        for k in 0..3usize {
+            let sc = Scenario { domain: 1, active: false, sockerr: Some(k), reqs: vec![Req { send: Some(T1_DEFAULT), events: seq_events(&[0], 1, 0), repeat: 1 }, Req { send: Some(T1_DEFAULT), events: seq_events(&[1, 2], 1, 1), repeat: 1 }] };
+            judge(&ctx, &mut tl, &sc);
+        }
+        tl.flush(&ctx);
+    }
+
+    ctx.sample(format!(
+        "requests with a measurement {} / without {}; panics {}; unrepresentable answers dropped {}; manager state updates {}",
+        ctx.get("requests_with_measurement"),
+        ctx.get("requests_without_measurement"),
+        ctx.get("panics"),
+        ctx.get("unrepresentable_answers_dropped"),
+        ctx.get("state_updates")
+    ));
+    ctx.exhaustive(true);
+    ctx.finish();
+}
